@@ -18,22 +18,26 @@ from checks.common import run_harness
 
 VALUES = {
     "hook": {"empty": "hook = []", "program_only": 'hook = ["true"]', "with_args": 'hook = ["/bin/sh", "-c", "exit 0", "%url", "%mimetype"]', "wrong_type": 'hook = "xdg-open"'},
-    "cache": {"negative": "cache_size = -3", "zero": "cache_size = 0", "one": "cache_size = 1", "positive": "cache_size = 7", "huge": "cache_size = 4611686018427387904", "wrong_type": 'cache_size = "big"'},
-    "preload": {"negative": "preload_amount = -2", "zero": "preload_amount = 0", "positive": "preload_amount = 3", "huge": "preload_amount = 9223372036854775807", "wrong_type": 'preload_amount = "many"'},
-    "timeout": {"negative": "timeout_seconds = -1", "zero": "timeout_seconds = 0", "positive": "timeout_seconds = 2", "huge": "timeout_seconds = 9223372037", "fractional": "timeout_seconds = 1.5", "wrong_type": 'timeout_seconds = "soon"'},
+    "cache": {"negative": ["cache_size = -3", "cache_size = -9223372036854775808"], "zero": "cache_size = 0", "one": "cache_size = 1", "positive": "cache_size = 7", "huge": "cache_size = 4611686018427387904", "wrong_type": 'cache_size = "big"'},
+    "preload": {"negative": ["preload_amount = -2", "preload_amount = -9223372036854775808", "preload_amount = -9223372036854775803", "preload_amount = -9223372036854770000"], "zero": "preload_amount = 0", "positive": "preload_amount = 3", "huge": "preload_amount = 9223372036854775807", "wrong_type": 'preload_amount = "many"'},
+    "timeout": {"negative": ["timeout_seconds = -1", "timeout_seconds = -9223372036854775808"], "zero": "timeout_seconds = 0", "positive": "timeout_seconds = 2", "huge": "timeout_seconds = 9223372037", "fractional": "timeout_seconds = 1.5", "wrong_type": 'timeout_seconds = "soon"'},
     "colour": {"valid": '"#12aB9f"', "empty": '""', "short": '"#123"', "no_hash": '"x12ab9f"', "non_hex": '"#12ab9g"', "signed": '"#+1-2ab"', "wrong_type": "5"},
 }
 
 
+def pick(value, rnd):
+    return rnd.choice(value) if isinstance(value, list) else value
+
+
 def toml_for(v, rnd):
-    if v["shape"] == "missing_file":
+    if v["shape"] in ("missing_file", "no_location"):
         return None
     if v["shape"] == "empty_file":
         return ""
     lines = []
     if v["hook"] != "absent":
-        lines += ["[media]", VALUES["hook"][v["hook"]]]
-    net = [VALUES[k][v[k]] for k in ("cache", "preload", "timeout") if v[k] != "absent"]
+        lines += ["[media]", pick(VALUES["hook"][v["hook"]], rnd)]
+    net = [pick(VALUES[k][v[k]], rnd) for k in ("cache", "preload", "timeout") if v[k] != "absent"]
     if v["shape"] == "unknown_key":
         net.append("bogus_key = 1")
     if net:
@@ -58,6 +62,10 @@ def probe(ctx, binary, idx, vec, text):
     env = ctx.go_env({"VERIF_OUT": out})
     env["XDG_CONFIG_HOME"] = d
     env["TMPDIR"] = d
+    if vec["shape"] == "no_location":
+        # as under cron or `env -i`: no HOME, no XDG_CONFIG_HOME
+        env.pop("XDG_CONFIG_HOME", None)
+        env.pop("HOME", None)
     try:
         p = subprocess.run([binary, "-test.run", "^TestVerifConfigProbe$", "-test.timeout", "120s"], cwd=d, env=env,
                            stdout=subprocess.PIPE, stderr=subprocess.STDOUT, timeout=150)
@@ -87,8 +95,8 @@ def run(ctx):
     r = ctx.tlc("MC_Config", "MC_Config.cfg").require_clean()
     res.add_tlc(r)
     vectors = ctx.tlc("MC_Config", "Gen_Config.cfg").json_lines("GEN")
-    if len(vectors) != 70560:
-        raise vlib.Inconclusive("expected 70560 class vectors, generator gave %d" % len(vectors))
+    if len(vectors) != 82320:
+        raise vlib.Inconclusive("expected 82320 class vectors, generator gave %d" % len(vectors))
     rnd = random.Random(ctx.seed)
     # the full product of the four fields consumers depend on (other classes benign), then a sample of the rest
     core = [v for v in vectors if v["colour"] in ("absent", "valid") and v["shape"] == "ok" and v["colour"] == "valid"]
@@ -105,6 +113,9 @@ def run(ctx):
                 if (k, c) not in seen and all((kk, cc) in seen or kk == k for kk, cc in v.items() if False):
                     pass
         chosen += others[:60]
+        chosen.append({"hook": "absent", "cache": "absent", "preload": "absent", "timeout": "absent", "colour": "absent", "shape": "no_location"})
+        for k in range(3):
+            chosen.append({"hook": "with_args", "cache": "positive", "preload": "negative", "timeout": "positive", "colour": "valid", "shape": "ok"})
         for field, classes in (("hook", ["empty"]), ("cache", ["zero", "negative", "one", "huge"]), ("preload", ["negative", "zero", "huge"]), ("timeout", ["negative", "zero", "fractional", "huge"]),
                                ("colour", ["empty", "short", "no_hash", "non_hex", "signed", "wrong_type"])):
             for c in classes:
